@@ -120,48 +120,59 @@ pub fn list_class(l: &[Range<u64>]) -> &'static str {
     }
 }
 
-#[allow(clippy::too_many_arguments)]
-fn judge(cov: &mut Cov, viol: &mut Vec<Violation>, tag: &str, path: &str, block: usize, list: &[Range<u64>], res: Result<Result<lance_core::Result<Vec<Bytes>>, tokio::time::error::Elapsed>, String>, file: &[u8]) -> bool {
-    cov.evaluations += 1;
-    let class = list_class(list);
-    let case = json!({"part": "A", "path": path, "block_size": block, "ranges": list_json(list), "env": tag});
-    let mut bad = |symptom: &str, what: String| {
-        viol.push(Violation::new(
-            "bytes",
-            &format!("bytes/{}/{class}/{symptom}", path.split('/').next().unwrap_or(path)),
-            format!("{path} block_size={block} env={tag} ranges {:?}: {what}", list.iter().map(|r| (r.start, r.end)).collect::<Vec<_>>()),
-            case.clone(),
-        ));
-    };
+type SubmitResult = Result<Result<lance_core::Result<Vec<Bytes>>, tokio::time::error::Elapsed>, String>;
+
+/// None = correct; Some((symptom, description, scheduler may be wedged))
+fn verdict(list: &[Range<u64>], res: SubmitResult, file: &[u8]) -> Option<(&'static str, String, bool)> {
     match res {
-        Err(p) => {
-            bad("panic", format!("panicked: {p}"));
-            false
-        }
-        Ok(Err(_)) => {
-            bad("hang", "request did not complete within 5 s and, re-submitted on a fresh scheduler, not within 60 s".into());
-            false
-        }
-        Ok(Ok(Err(e))) => {
-            bad("error", format!("returned Err: {e}"));
-            true
-        }
+        Err(p) => Some(("panic", format!("panicked: {p}"), true)),
+        Ok(Err(_)) => Some(("hang", "request did not complete within 5 s and, re-submitted on a fresh scheduler, not within 60 s".into(), true)),
+        Ok(Ok(Err(e))) => Some(("error", format!("returned Err: {e}"), false)),
         Ok(Ok(Ok(bufs))) => {
             if bufs.len() != list.len() {
-                bad("buffer-count", format!("{} buffers for {} ranges (lens {:?})", bufs.len(), list.len(), bufs.iter().map(|b| b.len()).collect::<Vec<_>>()));
-            } else if let Some(i) = (0..list.len()).find(|i| bufs[*i][..] != file[list[*i].start as usize..list[*i].end as usize]) {
-                bad("wrong-bytes", format!("buffer {i} = {:?}, file[{}..{}] = {:?}", &bufs[i][..], list[i].start, list[i].end, &file[list[i].start as usize..list[i].end as usize]));
+                Some(("buffer-count", format!("{} buffers for {} ranges (lens {:?})", bufs.len(), list.len(), bufs.iter().map(|b| b.len()).collect::<Vec<_>>()), false))
+            } else {
+                (0..list.len()).find(|i| bufs[*i][..] != file[list[*i].start as usize..list[*i].end as usize]).map(|i| {
+                    ("wrong-bytes", format!("buffer {i} = {:?}, file[{}..{}] = {:?}", &bufs[i][..], list[i].start, list[i].end, &file[list[i].start as usize..list[i].end as usize]), false)
+                })
             }
-            true
+        }
+    }
+}
+
+async fn submit(r: &Rig, path: &str, l: &[Range<u64>], cap_s: u64) -> SubmitResult {
+    use futures::FutureExt;
+    std::panic::AssertUnwindSafe(async {
+        let fut = match path {
+            "file_scheduler" => r.fs.submit_request(l.to_vec(), 0).boxed(),
+            "encodings_io/chunk3" => r.eio3.submit_request(l.to_vec(), 0),
+            _ => r.eio8.submit_request(l.to_vec(), 0),
+        };
+        tokio::time::timeout(std::time::Duration::from_secs(cap_s), fut).await
+    })
+    .catch_unwind()
+    .await
+    .map_err(|e| vcore::panic_message(&e))
+}
+
+/// does this (counterfactual) request list come back correct?
+async fn passes(r: &mut Rig, block: usize, path: &str, cand: &[Range<u64>], file: &[u8]) -> bool {
+    let res = submit(r, path, cand, 5).await;
+    match verdict(cand, res, file) {
+        None => true,
+        Some((_, _, wedged)) => {
+            if wedged {
+                *r = rig(block).await;
+            }
+            false
         }
     }
 }
 
 fn part_a_slice(block: usize, lists: &[Vec<Range<u64>>], tag: &str, cov: &mut Cov, viol: &mut Vec<Violation>) {
-    use futures::FutureExt;
     let file = file_bytes();
     // one block_on for the whole slice; every submission is individually guarded against panics
-    // (catch_unwind on the future) and hangs (5 s timeout)
+    // (catch_unwind on the future) and hangs (5 s timeout, confirmed with 60 s on a fresh scheduler)
     block_on(async {
         let mut r = rig(block).await;
         for l in lists {
@@ -171,37 +182,45 @@ fn part_a_slice(block: usize, lists: &[Vec<Range<u64>>], tag: &str, cov: &mut Co
             }
             cov.outcome(&format!("lists:{class}"));
             for path in ["file_scheduler", "encodings_io/chunk3", "encodings_io/chunk8"] {
-                let guarded = std::panic::AssertUnwindSafe(async {
-                    let fut = match path {
-                        "file_scheduler" => r.fs.submit_request(l.clone(), 0).boxed(),
-                        "encodings_io/chunk3" => r.eio3.submit_request(l.clone(), 0),
-                        _ => r.eio8.submit_request(l.clone(), 0),
-                    };
-                    tokio::time::timeout(std::time::Duration::from_secs(5), fut).await
-                })
-                .catch_unwind()
-                .await;
-                let mut res = guarded.map_err(|e| vcore::panic_message(&e));
+                cov.evaluations += 1;
+                let mut res = submit(&r, path, l, 5).await;
                 if matches!(res, Ok(Err(_))) {
-                    // a time-out is only a verdict if it repeats on a fresh scheduler with a 60 s cap
                     cov.outcome("hang-suspected:re-run");
                     r = rig(block).await;
-                    let again = std::panic::AssertUnwindSafe(async {
-                        let fut = match path {
-                            "file_scheduler" => r.fs.submit_request(l.clone(), 0).boxed(),
-                            "encodings_io/chunk3" => r.eio3.submit_request(l.clone(), 0),
-                            _ => r.eio8.submit_request(l.clone(), 0),
-                        };
-                        tokio::time::timeout(std::time::Duration::from_secs(60), fut).await
-                    })
-                    .catch_unwind()
-                    .await;
-                    res = again.map_err(|e| vcore::panic_message(&e));
+                    res = submit(&r, path, l, 60).await;
                 }
-                if !judge(cov, viol, tag, path, block, l, res, &file) {
-                    // the scheduler may be wedged after a panic / hang: start from a fresh one
+                let Some((symptom, what, wedged)) = verdict(l, res, &file) else { continue };
+                if wedged {
                     r = rig(block).await;
                 }
+                // ---- root cause = the input feature whose removal makes the request succeed ----
+                let mut cur: Vec<Range<u64>> = l.clone();
+                let mut cause = "other";
+                let mut decided = false;
+                if !cur.windows(2).all(|w| w[0].start <= w[1].start) {
+                    cur.sort_by_key(|x| (x.start, x.end));
+                    if passes(&mut r, block, path, &cur, &file).await {
+                        cause = "unsorted-ranges";
+                        decided = true;
+                    }
+                }
+                if !decided && cur.iter().any(|x| x.start == x.end) {
+                    cur.retain(|x| x.start != x.end);
+                    if passes(&mut r, block, path, &cur, &file).await {
+                        cause = "empty-range-gets-no-buffer";
+                        decided = true;
+                    }
+                }
+                if !decided && cur.windows(2).any(|w| w[1].start < w[0].end) {
+                    cause = "overlapping-range-after-a-split-range";
+                }
+                viol.push(Violation::new(
+                    "bytes",
+                    &format!("bytes/{cause}"),
+                    format!("{path} block_size={block} env={tag} ranges {:?}: {what} [{symptom}]", l.iter().map(|x| (x.start, x.end)).collect::<Vec<_>>()),
+                    json!({"part": "A", "path": path, "block_size": block, "ranges": list_json(l), "env": tag, "symptom": symptom}),
+                ));
+                cov.outcome(&format!("bytes-failure:{cause}:{}:{symptom}", path.split('/').next().unwrap_or(path)));
             }
         }
     });
@@ -357,9 +376,39 @@ pub fn run(ctx: &Ctx) -> Outcome {
     out
 }
 
+/// the env vars a recorded case ran under ("max_iop=2 io_threads=1"), when they differ from ours
+fn recorded_env(tag: &str) -> Vec<(&'static str, String)> {
+    let mut v = vec![];
+    for part in tag.split_whitespace() {
+        if let Some((k, val)) = part.split_once('=') {
+            let name = match k {
+                "max_iop" => "LANCE_MAX_IOP_SIZE",
+                "io_threads" => "LANCE_PROCESS_IO_THREADS_LIMIT",
+                _ => continue,
+            };
+            if val != "default" && std::env::var(name).ok().as_deref() != Some(val) {
+                v.push((name, val.to_string()));
+            }
+        }
+    }
+    v
+}
+
 fn replay(ctx: &Ctx, art: &Value) -> Outcome {
     let mut out = Outcome::new("model_checking");
     let c = &art["case"];
+    // the knobs are process-global: re-execute ourselves under the recorded environment
+    let envs = recorded_env(c["env"].as_str().unwrap_or(""));
+    if !envs.is_empty() {
+        let mut cmd = std::process::Command::new(std::env::current_exe().expect("current_exe"));
+        cmd.arg(&ctx.id).arg("--tier").arg(ctx.tier.name()).arg("--replay").arg(ctx.replay.as_ref().unwrap());
+        for (k, v) in &envs {
+            cmd.env(k, v);
+        }
+        cmd.env("VERIF_DIR", &ctx.verif_dir);
+        let st = cmd.status().unwrap_or_else(|e| vcore::machinery_error(&format!("cannot re-execute for replay: {e}")));
+        std::process::exit(st.code().unwrap_or(2));
+    }
     if c["part"] == "B" {
         return crate::c30b::replay(ctx, art);
     }
